@@ -1,6 +1,7 @@
 import TD.C08.LemmasRound
 import TD.C08.LemmasEbs
 import TD.C08.LemmasDsb
+import TD.C08.Lemmas68
 
 /-!
 # C08 — LIS tables and data format specifications survive encode then decode
@@ -597,5 +598,156 @@ theorem dfsr_roundtrip (E : List EB) (chans : List ChanSpec) (hE : EBSOk E)
   rw [hu2]
   simp only [List.getD_cons_zero, ne_eq, not_true_eq_false, if_false, hE0, hread, hblock2, Bool.not_true,
     Bool.false_eq_true, hloop, List.nil_append, hsnd]
+
+/-! ## Floats: representable values are fixed points; every subset of entry blocks; exact tables -/
+
+/-- **Code 68 representable floats round-trip exactly**: zero, or an odd mantissa with `frexp` exponent in (−151, 127]
+and no bit below 2^(max(exponent, −128) − 23).  (For all other finite floats the decoded value is `from68(to68 v)`
+by `cb_roundtrip`/`table_roundtrip`; that it is within 2⁻²² relative of `v` is C07's theorem and is assumed, not
+proved, here.) -/
+theorem f68_roundtrip (d : Dy) (h : Rep68 d) : rtVal (.float d) = .float d := by
+  simp [rtVal, f68_fixed d h]
+
+/-- values that come back exactly -/
+def ValExact : Val → Prop
+  | .float d => Rep68 d
+  | _ => True
+
+theorem rtVal_exact (v : Val) (h : ValExact v) : rtVal v = v := by
+  cases v with
+  | float d => exact f68_roundtrip d h
+  | bytes b => rfl
+  | int i => rfl
+
+theorem rowCbs_exact (cells : List Cell) : ∀ (ms : List Bytes) (c : Nat), (∀ x ∈ cells, ValExact x.v) →
+    ∀ cb ∈ rowCbsFrom c cells ms, rtCb cb = cb := by
+  induction cells with
+  | nil => intro ms c _ cb h; simp [rowCbsFrom] at h
+  | cons a xs ih =>
+    intro ms c hv cb h
+    cases ms with
+    | nil => simp [rowCbsFrom] at h
+    | cons m ms =>
+      simp only [rowCbsFrom, List.mem_cons] at h
+      rcases h with rfl | h
+      · simp [rtCb, cellCb, rtVal_exact a.v (hv a (by simp))]
+      · exact ih ms (c + 1) (fun x hx => hv x (by simp [hx])) cb h
+
+/-- **Exact table round trip**: when every float in the table is code-68 representable, the table that is read is the
+table that was written — same name block, same rows, same cells (and then `stableNames` holds automatically). -/
+theorem table_roundtrip_exact (t : TableSpec) (ok : TableOk t) (hname : ValExact t.name)
+    (hexact : ∀ r ∈ t.rows, ∀ c ∈ r, ValExact c.v) :
+    ∃ W bs R, tableWrite t = .ok W ∧ tableLrBytes t.lrType W = .ok bs ∧ tableRead bs = .ok R ∧
+      R.tcb = W.tcb ∧ R.rows = W.rows ∧ W.rows = kept (allRowCbs t) := by
+  obtain ⟨W, bs, R, h1, h2, h3, hWt, hWr, hRt, hRr, _⟩ := table_roundtrip t ok
+  refine ⟨W, bs, R, h1, h2, h3, ?_, ?_, hWr⟩
+  · rw [hRt, hWt]; simp [rtCb, tcbOf, cellCb, rtVal_exact t.name hname]
+  · rw [hRr]
+    have : ∀ r ∈ W.rows, r.map rtCb = r := by
+      intro r hr
+      rw [hWr] at hr
+      have hmem := keptAux_mem hr
+      obtain ⟨r0, hr0, rfl⟩ := List.mem_map.1 hmem
+      have := rowCbs_exact r0 t.mnems 0 (hexact r0 hr0)
+      calc (rowCbsFrom 0 r0 t.mnems).map rtCb = (rowCbsFrom 0 r0 t.mnems).map id :=
+            List.map_congr_left (fun cb hcb => this cb hcb)
+        _ = _ := List.map_id _
+    calc W.rows.map (·.map rtCb) = W.rows.map id := List.map_congr_left (fun r hr => this r hr)
+      _ = W.rows := List.map_id _
+
+/-- apply `setEntryBlock` for each block of a list, as a user building a format specification does -/
+def setAll : List EB → List EB → Except Err (List EB)
+  | [], E => .ok E
+  | e :: r, E => match setEB e E with
+    | .ok E' => setAll r E'
+    | .error er => .error er
+
+/-- **Every subset**: starting from the defaults and setting any list of legal blocks (hence any subset of the 16
+settable block types 0…16 without 10, in any order, also repeatedly) gives a legal entry block set, to which
+`ebs_roundtrip`, `ebs_even_length` and `dfsr_roundtrip` apply. -/
+theorem ebs_subset_legal (bl : List EB) (hbl : ∀ e ∈ bl, EBLegal e ∧ e.type < 17 ∧ e.type ≠ 10) :
+    ∃ E0 E, ebsDefault = .ok E0 ∧ setAll bl E0 = .ok E ∧ EBSOk E := by
+  obtain ⟨E0, h0, hok0⟩ := ebs_default_legal
+  refine ⟨E0, ?_⟩
+  have : ∀ (bl : List EB) (E : List EB), (∀ e ∈ bl, EBLegal e ∧ e.type < 17 ∧ e.type ≠ 10) → EBSOk E →
+      ∃ E', setAll bl E = .ok E' ∧ EBSOk E' := by
+    intro bl
+    induction bl with
+    | nil => intro E _ h; exact ⟨E, rfl, h⟩
+    | cons e r ih =>
+      intro E hbl h
+      obtain ⟨hl, ht, h10⟩ := hbl e (by simp)
+      obtain ⟨E1, hs, hok1⟩ := ebs_setEB_legal E e h hl ht h10
+      obtain ⟨E2, hs2, hok2⟩ := ih E1 (fun x hx => hbl x (by simp [hx])) hok1
+      exact ⟨E2, by simp [setAll, hs, hs2], hok2⟩
+  obtain ⟨E, h1, h2⟩ := this bl E0 hbl hok0
+  exact ⟨E, h0, h1, h2⟩
+
+/-! ## Non-vacuity: concrete instances meet the hypotheses and compute -/
+
+def exTable : TableSpec :=
+  ⟨34, .bytes [70, 73, 76, 77], [mnemMNEM, [71, 67, 79, 68], [76, 69, 68, 71]],
+   [[⟨.bytes [49, 32, 32, 32], none⟩, ⟨.int 300, none⟩, ⟨.float ⟨-5, 4⟩, some [77, 86, 32, 32]⟩],
+    [⟨.bytes [50, 32, 32, 32], none⟩, ⟨.int (-7), none⟩, ⟨.float ⟨1, -1⟩, none⟩],
+    [⟨.bytes [49, 32, 32, 32], none⟩, ⟨.bytes [], none⟩, ⟨.int 70000, none⟩]]⟩
+
+example : (kept (allRowCbs exTable)).length = 2 := by decide
+def exCheckTable (t : TableSpec) : Bool :=
+  match tableWrite t with
+  | .ok W =>
+    match tableLrBytes t.lrType W with
+    | .ok bs =>
+      match tableRead bs with
+      | .ok R => decide (R.rows = W.rows ∧ R.rows.length = 2 ∧ R.tcb = W.tcb)
+      | .error _ => false
+    | .error _ => false
+  | .error _ => false
+
+example : exCheckTable exTable = true := by decide
+example : Rep68 ⟨-3997, -2⟩ := by right; decide
+example : Rep68 ⟨1, -140⟩ := by right; decide
+example : from68 (to68 ⟨-3997, -2⟩) = ⟨-3997, -2⟩ := by decide
+example : ∃ E0, ebsDefault = .ok E0 ∧ EBSOk E0 := ebs_default_legal
+example : EBLegal ⟨8, 4, 68, some (.float ⟨1, -1⟩)⟩ :=
+  ⟨by decide, by decide, Or.inr ⟨_, rfl, Or.inr (Or.inr (Or.inr (Or.inr ⟨rfl, rfl, _, rfl⟩)))⟩⟩
+example : ChanOk ⟨[68, 69, 80, 84], [83, 101, 114, 118, 73, 68], [83, 101, 114, 118, 79, 114, 100, 78], [70, 69, 69, 84],
+    45310011, 256, 96, 4, 68⟩ := by constructor <;> decide
+example : burstsSub 68 96 4 = .ok (6, 1) := by decide
+def exCheckDfsr (E : List EB) (ch : List ChanSpec) : Bool :=
+  match dfsrLrBytes E ch with
+  | .ok bs =>
+    match dfsrRead bs with
+    | .ok (E', ds) => decide (ds.length = 1 ∧ E'.length = 17 ∧ bs.length % 2 = 0)
+    | .error _ => false
+  | .error _ => false
+
+example : exCheckDfsr (evenOf ebsInit) [⟨[68, 69, 80, 84], [83, 101, 114, 118, 73, 68], [83, 101, 114, 118, 79, 114, 100, 78],
+    [70, 69, 69, 84], 45310011, 256, 96, 4, 68⟩] = true := by decide
+
+/-- the hypotheses of `table_roundtrip` are satisfiable by a table with a duplicate row, an empty byte cell (not last),
+integers of two sizes, floats with units -/
+example : TableOk exTable where
+  lrType := rfl
+  nameLegal := by simp [exTable, Val.legal]
+  nameNe := by simp [exTable]
+  mnems4 := by simp [exTable, mnemMNEM]
+  mnemsNodup := by decide
+  mnemsNe := by simp [exTable]
+  rowLen := by simp [exTable]
+  cells := by simp [exTable, Val.legal, unitsOf, spaces4]
+  stableNames := by simp [exTable, rtVal]
+  mnemCol := by
+    intro r hr
+    simp only [allRowCbs, exTable, List.map_cons, List.map_nil, List.mem_cons, List.mem_nil_iff, or_false] at hr
+    rcases hr with rfl | rfl | rfl
+    · exact Or.inr ⟨cellCb 0 mnemMNEM ⟨.bytes [49, 32, 32, 32], none⟩, [49, 32, 32, 32], by decide, rfl⟩
+    · exact Or.inr ⟨cellCb 0 mnemMNEM ⟨.bytes [50, 32, 32, 32], none⟩, [50, 32, 32, 32], by decide, rfl⟩
+    · exact Or.inr ⟨cellCb 0 mnemMNEM ⟨.bytes [49, 32, 32, 32], none⟩, [49, 32, 32, 32], by decide, rfl⟩
+  lastNonEmpty := by
+    intro cb h
+    have : ((kept (allRowCbs exTable)).flatten).getLast? = some (cellCb 69 [76, 69, 68, 71] ⟨.float ⟨1, -1⟩, none⟩) := by decide
+    rw [this] at h
+    cases h
+    simp [cellCb]
 
 end TD.C08
